@@ -2643,7 +2643,17 @@ func (self *LockDB) doCheckLockWaitPriority(lockManager *LockManager, lock *Lock
 	if lock.command.Rcount > maxPriority {
 		return true
 	}
-	return false
+	// the queue's maximum still counts requests that have timed out or been cancelled but are
+	// not unlinked yet: compare with the first live request
+	waitLock := lockManager.GetWaitLock()
+	if waitLock == nil {
+		return true
+	}
+	waitPriority := uint8(0)
+	if waitLock.command.TimeoutFlag&protocol.TIMEOUT_FLAG_RCOUNT_IS_PRIORITY != 0 {
+		waitPriority = waitLock.command.Rcount
+	}
+	return lock.command.Rcount > waitPriority
 }
 
 func (self *LockDB) wakeUpWaitLocks(lockManager *LockManager, serverProtocol ServerProtocol) {
